@@ -57,9 +57,11 @@ impl FromStr for Sorter {
 
 fn read_to_eof<R: Read>(r: &mut Reader<R>) -> Result<String, SelectionParseError> {
     let mut chars = Vec::new();
+    let mut current = r.peek()?;
     loop {
-        if let Some(ch) = r.next()? {
-            chars.push(ch)
+        if let Some(ch) = current {
+            chars.push(ch);
+            current = r.next()?;
         } else {
             let str = String::from_utf8(chars)?;
             return Ok(str.trim().to_string());
